@@ -47,7 +47,7 @@ theorem roid_step (i : MergeInput) (h : DomC03 i = true) (hid : hasRoId i.d = tr
   simp only at h hid hs ⊢
   simp only [DomC03, Bool.and_eq_true] at h
   obtain ⟨⟨hwf, _⟩, hsh⟩ := h
-  obtain ⟨rc, hrc, hw, hwi⟩ := wf_of_WfRO hwf
+  obtain ⟨rc, hrc⟩ := wf_of_WfRO hwf
   obtain ⟨_, base, hb, hne, _⟩ := shaped_facts hsh
   have h0 := roIdIs_of_has hrc hid
   simp only [sameRo, hb] at hs
@@ -59,7 +59,7 @@ theorem roid_step (i : MergeInput) (h : DomC03 i = true) (hid : hasRoId i.d = tr
     · rw [addK_editsRc k d m rc base hk hc' hrc hb]
       apply roid_of (rcOf_setRcKids d rc _ hrc)
       simp only [Xml.withKids_kids]
-      apply roIdIs_mergeRc k rc base _ hw hwi h0
+      apply roIdIs_mergeRc k rc base _ h0
       rintro rfl s hs1 hs2
       simp only [List.all_eq_true, beq_iff_eq] at hs
       exact hs s (by simp [Xml.findall, hs1, hs2])
